@@ -373,20 +373,19 @@ def _classify(fname, ffile, m, parents, base):
     """Climb from the MemberExpr to the maximal access path and look at its context."""
     e = m
     depth = 0
+    addr = False
     i = len(parents) - 1
     while i >= 0:
         p = parents[i]
         k = p.get("k")
         kids = cir.kids(p)
+        et = e.get("t") or ""
         if k in cir.TRANSPARENT:
             e = p
-        elif k == "ArraySubscriptExpr" and kids and _contains(kids[0], e):
+        elif k == "ArraySubscriptExpr" and kids and kids[0] is e:
             e = p
             depth += 1
-        elif k == "MemberExpr" and not p.get("arrow"):
-            e = p
-            depth += 1
-        elif k == "MemberExpr" and p.get("arrow"):
+        elif k == "MemberExpr":
             e = p
             depth += 1
         elif k == "UnaryOperator" and p.get("op") == "*":
@@ -394,17 +393,14 @@ def _classify(fname, ffile, m, parents, base):
             depth += 1
         elif k == "UnaryOperator" and p.get("op") == "&":
             e = p
-            depth -= 1 if depth > 0 else 0
-            if depth == 0:
-                depth = 0
-            # address of an element / of the field itself
-            return _ctx(fname, ffile, m, e, parents[:i], base, max(depth, 0), addr=True)
-        elif k == "BinaryOperator" and p.get("op") in ("+", "-") and "*" in (p.get("t") or ""):
+            addr = True
+            depth = max(depth - 1, 0)
+        elif k == "BinaryOperator" and p.get("op") in ("+", "-") and ("*" in et or "[" in et) and "*" in (p.get("t") or ""):
             e = p
         else:
             break
         i -= 1
-    return _ctx(fname, ffile, m, e, parents[:i + 1], base, depth, addr=False)
+    return _ctx(fname, ffile, m, e, parents[:i + 1], base, depth, addr)
 
 
 def _contains(a, b):
@@ -507,7 +503,33 @@ def tu_facts(unit):
 # ----------------------------------------------------------------------------------------------- pairing typestate
 
 class JumpExplorer(paths.Explorer):
-    """paths.Explorer + a rule hook on `continue` / `break` (the rule may rewrite the state on the jump)."""
+    """paths.Explorer + a rule hook on `continue` and on a `break` that leaves a loop (the rule may rewrite the state on
+    the jump).  A `break` that only leaves a switch is not a jump out of the iteration."""
+
+    def __init__(self, rule, unit, fn):
+        super().__init__(rule, unit, fn)
+        self._nest = []
+
+    def _loop(self, n, S, init, cond, inc, body, do_first=False):
+        self._nest.append("loop")
+        try:
+            return super()._loop(n, S, init, cond, inc, body, do_first)
+        finally:
+            self._nest.pop()
+
+    def _loop_nondet(self, n, S, body):
+        self._nest.append("loop")
+        try:
+            return super()._loop_nondet(n, S, body)
+        finally:
+            self._nest.pop()
+
+    def s_SwitchStmt(self, n, S):
+        self._nest.append("switch")
+        try:
+            return super().s_SwitchStmt(n, S)
+        finally:
+            self._nest.pop()
 
     def s_ContinueStmt(self, n, S):
         r = self._res()
@@ -516,7 +538,10 @@ class JumpExplorer(paths.Explorer):
 
     def s_BreakStmt(self, n, S):
         r = self._res()
-        r["break"] = {(self.rule.jump(st, n, "break", self.ctx), env) for st, env in S}
+        if self._nest and self._nest[-1] == "switch":
+            r["break"] = set(S)
+        else:
+            r["break"] = {(self.rule.jump(st, n, "break", self.ctx), env) for st, env in S}
         return r
 
 
